@@ -110,6 +110,9 @@ def case_select(R: Runner, inp: dict[str, Any]) -> None:
         res[f] = s
         R.expect(f, law_s, s, want, lambda s=s, want=want: _qual(mode, k, v, E, s.value, want))
         R.expect(f, law_l, lm, want, lambda lm=lm, want=want: _qual(mode, k, v, E, lm.value, want))
+        if mode == "value":
+            # the compared value may just as well be a template-local variable
+            R.locals_agree(f, f"{f}: i => {lam_path(k)} == t", lm, v, "lambda-sees-template-local-variable", x=x)
         if s.ok and lm.ok:
             R.law(f, "form-equivalence", skey(s.value) == skey(lm.value),
                   lambda s=s, lm=lm: _qual(mode, k, v, E, s.value, lm.value),
@@ -144,6 +147,9 @@ def case_select(R: Runner, inp: dict[str, Any]) -> None:
                         [want_f] if want_f is not None else [])
     R.expect("find", law_s, fs, want_f, q_f)
     R.expect("find", law_l, fl, want_f, "")
+    if mode == "value":
+        R.locals_agree("find", f"find: i => {lam_path(k)} == t", fl, v, "lambda-sees-template-local-variable",
+                       sites=("assign", "for", "macro"), x=x)
     if fs.ok and w.ok:
         R.law("find", "first-of-where", skey(fs.value) == skey(w.value[0] if w.value else None), "",
               {"find": fs.value, "where": w.value})
@@ -158,6 +164,9 @@ def case_select(R: Runner, inp: dict[str, Any]) -> None:
                         [want_f] if want_f is not None else [])
     R.expect("find_index", law_s, is_, want_i, q_i)
     R.expect("find_index", law_l, il, want_i, "")
+    if mode == "value":
+        R.locals_agree("find_index", f"find_index: i => {lam_path(k)} == t", il, v, "lambda-sees-template-local-variable",
+                       sites=("assign", "for", "macro"), x=x)
     if is_.ok and fs.ok:
         iv = is_.value
         cons = (iv is None and fs.value is None) or (
@@ -173,6 +182,9 @@ def case_select(R: Runner, inp: dict[str, Any]) -> None:
     R.expect("has", law_s, hs, bool(want_w),
              lambda: _qual(mode, k, v, E, _pyselect(mode, k, v, E) if hs.value else [], want_w))
     R.expect("has", law_l, hl, bool(want_w), "")
+    if mode == "value":
+        R.locals_agree("has", f"has: i => {lam_path(k)} == t", hl, v, "lambda-sees-template-local-variable",
+                       sites=("assign", "for", "macro"), x=x)
     if hs.ok and is_.ok:
         R.law("has", "iff-find-index", hs.value is (is_.value is not None), "",
               {"has": hs.value, "find_index": is_.value})
